@@ -10,6 +10,8 @@ known findings: unquoted strings made of several tokens lose their blanks / are 
 """
 import re
 
+import sys
+
 from .. import common, parsing, render
 
 F10_WITNESSES = [
@@ -50,8 +52,63 @@ def strip_lines(canon):
     return re.sub(r"e\(\d+,", "e(", re.sub(r",\d+,\[", ",[", re.sub(r"arg\(([0-9a-f-]+),\d+,", r"arg(\1,", canon)))
 
 
+PROBE_SCRIPT = '''
+import json, time
+from mpilot.parser.parser import Parser
+Q = chr(34)
+texts = ["A = B(P = " + Q + "abcdefghijklmnopqrstuvwxyz0123456789 and more text without a closing quote)",
+         "A = B(P = it's an apostrophe in unquoted text followed by quite a few more characters, P2 = 5)",
+         "A = B(P = " + Q + "x" * 60 + ")" + chr(10) + "C = D(Q = 1)" + chr(10),
+         "A = B(P = [1, 2, " + Q + "never closed, 3, 4, 5, 6, 7, 8, 9, 10, 11, 12, 13, 14, 15])",
+         "A = B(P = " + "[" * 40 + "1" + "]" * 39 + ")", "A = B(" + "x = 1, " * 30, "A = " * 40 + "B()"]
+out = []
+for t in texts:
+    t0 = time.time()
+    try:
+        Parser().parse(t)
+        r = "accepted"
+    except SyntaxError:
+        r = "syntax"
+    except Exception as e:
+        r = "raw " + type(e).__name__
+    out.append([r, round(time.time() - t0, 3)])
+    print(json.dumps(out), flush=True)
+'''
+
+
+def malformed_in_time(ctx):
+    """malformed texts a slip of the keyboard produces - a quote that is never closed, an apostrophe in unquoted text, brackets that do not match - are
+    rejected with a syntax error at once (a fresh interpreter with a time limit: a lexer pattern that backtracks would take hours on forty characters).
+    Returns False when the parser does not answer in time: the in-process streams, which hold such texts too, are then not run."""
+    import subprocess
+    pre = "import sys\nsys.path.insert(0, %r)\n" % common.scratch_repo()
+    limit = 25
+    try:
+        p = subprocess.run([sys.executable, "-c", pre + PROBE_SCRIPT], stdout=subprocess.PIPE, stderr=subprocess.PIPE, universal_newlines=True, timeout=limit)
+        lines = [l for l in p.stdout.strip().split("\n") if l]
+        timed_out = False
+    except subprocess.TimeoutExpired as e:
+        so = e.stdout.decode() if isinstance(e.stdout, bytes) else (e.stdout or "")
+        lines = [l for l in so.strip().split("\n") if l]
+        timed_out = True
+    import json
+    done = json.loads(lines[-1]) if lines else []
+    ctx.count("malformed_probe_texts", len(done))
+    ctx.case("malformed-probe", sample={"answers": done})
+    if timed_out:
+        ctx.fail("a malformed text (no. %d of the probe: an unclosed quote / a stray apostrophe) is not rejected within %d seconds - the parser does not answer" % (len(done) + 1, limit),
+                 {"probe_text_no": len(done) + 1, "answered_so_far": done})
+        return False
+    for k, (r, dt) in enumerate(done):
+        if r != "syntax":
+            ctx.fail("malformed probe text no. %d: %s instead of a syntax error" % (k + 1, r), {"probe_text_no": k + 1})
+    return True
+
+
 def run(ctx):
     ctx.check_proofs(["MPilot.Props.C10"])
+    if not malformed_in_time(ctx):
+        return ctx.finish(rule="malformed-text probe only: the parser did not answer in time", explanation="the in-process streams were not run")
     model = common.Model()
     rng = ctx.rng
     srcs, expected, kinds = list(REGRESSIONS), [None] * len(REGRESSIONS), ["regression"] * len(REGRESSIONS)
